@@ -202,7 +202,7 @@ register(
     level="proof",
     streams=["ros_e19", "supply", "fixed_point", "steps"],
     falsifier=_with_oracle_validation(fals_ros.falsify_C04),
-    partial=["PROVED for every supply process delivering at least the supply-bound function (every compliant budget placement of a periodic / deadline-constrained reservation), every release pattern within the curves, every execution time up to the WCET: the event-source analysis (all FIFO schedules), the timer analysis, the polling-point-callback analysis and the processing-chain analysis (scalar WCETs of the analysed callback / chain) over the schedule-level executor Spec SupplyTimerLegal (non-preemptive, no idling while a relevant instance is pending, no other callback started meanwhile, own instances in release order; chains: every callback instance carries the arrival time of its chain instance). Timer, polling-point and chain analyses ALSO for every run of the executor transition system itself (executor_runs_are_timer_legal, executor_runs_are_chain_legal; timer_safe_lts, polling_point_safe_lts, chain_safe_lts). Timer and polling-point analyses additionally END TO END (timer_safe_end_to_end, polling_point_safe_end_to_end; timer_safe_run, polling_point_safe_run): all hypotheses on the inputs of the run (callback table, supply process, release pattern within the curves), conclusion on the completions reported by the executable Exec.run; the processing-chain analysis likewise (chain_safe_end_to_end: the m-th completion of the last callback is within R of the m-th release of the chain's source; chain_safe_end_to_end_nonvacuous: a concrete run attaining the bound 6). ALL EXECUTION TIMES also at the level of the transition system: RTA/Spec/Ros2ExecX.lean lets every instance run for any time between 1 and its WCET; timer_safe_all_execution_times, polling_point_safe_all_execution_times (refinement re-proved: Lemmas/ExecRefineX.lean). Remaining restrictions: scalar WCET bounds of the analysed callback / chain; one linear chain per run in the chain refinement; chains in the transition system run at their WCET"],
+    partial=["PROVED for every supply process delivering at least the supply-bound function (every compliant budget placement of a periodic / deadline-constrained reservation), every release pattern within the curves, every execution time up to the WCET: the event-source analysis (all FIFO schedules), the timer analysis, the polling-point-callback analysis and the processing-chain analysis (scalar WCETs of the analysed callback / chain) over the schedule-level executor Spec SupplyTimerLegal (non-preemptive, no idling while a relevant instance is pending, no other callback started meanwhile, own instances in release order; chains: every callback instance carries the arrival time of its chain instance). Timer, polling-point and chain analyses ALSO for every run of the executor transition system itself (executor_runs_are_timer_legal, executor_runs_are_chain_legal; timer_safe_lts, polling_point_safe_lts, chain_safe_lts). Timer and polling-point analyses additionally END TO END (timer_safe_end_to_end, polling_point_safe_end_to_end; timer_safe_run, polling_point_safe_run): all hypotheses on the inputs of the run (callback table, supply process, release pattern within the curves), conclusion on the completions reported by the executable Exec.run; the processing-chain analysis likewise (chain_safe_end_to_end: the m-th completion of the last callback is within R of the m-th release of the chain's source; chain_safe_end_to_end_nonvacuous: a concrete run attaining the bound 6). ALL EXECUTION TIMES also at the level of the transition system: RTA/Spec/Ros2ExecX.lean lets every instance run for any time between 1 and its WCET; timer_safe_all_execution_times, polling_point_safe_all_execution_times, chain_safe_all_execution_times (refinements re-proved: Lemmas/ExecRefineX.lean, ExecRefineChainX.lean). Remaining restrictions: scalar WCET bounds of the analysed callback / chain; one linear chain per run in the chain refinement"],
     explanation="busy-window proofs on an arbitrary supply process whose service in every window is bounded below by the supply-bound function (C09 soundness): FIFO for the event source; non-preemptive fixed priority with bounded blocking, interference counted up to the start of the instance, for timers; polling-point callbacks as the special case where every other callback interferes and nothing blocks; composed with the meaning of Ok(R) (C07: analyses = naive evaluation on the step offsets). Executor model specified in Lean, executed by the falsifier, its runs checked against the schedule-level Spec.",
 )
 
